@@ -78,6 +78,8 @@ func init() {
 			add(ShutdownParams{Case: "earlyclose", Checkpoint: "auto", Mitigation: true, Health: true, Membership: "static", MaxPoint: 4}, 1)
 			add(ShutdownParams{Case: "earlyclose", Checkpoint: "auto", Membership: "couchbase", APIInfo: true, MaxPoint: 4}, 1)
 			add(ShutdownParams{Case: "slowmitigationstart", Checkpoint: "auto", Mitigation: true, Membership: "static", MaxPoint: 8}, 1)
+			add(ShutdownParams{Case: "duringstart", Checkpoint: "auto", Mitigation: true, Health: true, Membership: "static", MaxPoint: 120}, 4)
+			add(ShutdownParams{Case: "duringstart", Checkpoint: "auto", Health: true, Membership: "dynamic", MaxPoint: 120}, 4)
 			add(ShutdownParams{Case: "slowfailsave", Checkpoint: "auto", Membership: "static", MaxPoint: 6}, 1)
 			add(ShutdownParams{Case: "afterrebalance", Checkpoint: "auto", Membership: "static", MaxPoint: 1}, 1)
 			add(ShutdownParams{Case: "afterrebalance", Checkpoint: "auto", Membership: "static", MaxPoint: 1, OldServer: true}, 1)
@@ -273,8 +275,12 @@ func shutdownMain(p ShutdownParams) {
 	} else {
 		vrt.Logf("REBALANCE-DELAY %d", int64(o.RebalanceDelay))
 	}
-	e.Start()
-	early := p.Case == "slowmitigationstart" || p.Case == "earlyclose"
+	if p.Case == "duringstart" {
+		e.StartNoWait() // Close() arrives from another goroutine while Start() is still on its way to readiness
+	} else {
+		e.Start()
+	}
+	early := p.Case == "slowmitigationstart" || p.Case == "earlyclose" || p.Case == "duringstart"
 	if !early {
 		vrt.Quiesce()
 		c.WaitIdle()
@@ -327,6 +333,10 @@ func shutdownMain(p ShutdownParams) {
 	switch p.Case {
 	case "idle":
 		doClose()
+	case "duringstart":
+		// at every scheduling point of Start() before (and just after) readiness; the request is queued and
+		// honoured once the session is up - nothing of the session may survive it
+		vrt.InjectAt("dcp.Start", k, doClose)
 	case "deliver":
 		vrt.InjectAt("sim:dcp:events0", k, doClose)
 		c.Append(0, marker(3, 4), symbolPacket("M", 3), symbolPacket("M", 4))
